@@ -15,7 +15,7 @@
    model (and replayed on the implementation by checks/c18.py). *)
 From DtlsV Require Import Lib.Bytes Gen.Generated Codec.C18Comb Codec.C18CombSound
   Codec.C18Rec Codec.C18RecSound Codec.C18Hs Codec.C18HsSound Codec.C18Rec13 Codec.C18Rec13Sound
-  Codec.C18Run.
+  Codec.C18Ext Codec.C18ExtSound Codec.C18Run.
 Open Scope N_scope.
 
 (* ================================================================== the combinator library *)
@@ -326,6 +326,62 @@ Theorem C18_handshake_fragment_reencode_refuted :
 Proof. exact hs_fragment_reencode_refuted. Qed.
 Print Assumptions C18_handshake_fragment_reencode_refuted.
 
+(* ================================================================== extensions *)
+
+(* [ext_ok w] = wsound w /\ wdec_ok w /\ wfixpoint w *)
+
+(* the extension block framing: extension.ParseList / MarshalRawList *)
+Theorem C18_extension_list : ext_ok w_ext_list /\ wtrunc w_ext_list.
+Proof. exact (conj ext_list_ok ext_list_trunc). Qed.
+Print Assumptions C18_extension_list.
+
+(* payloads of package extension: connection_id, ALPN offer/selection, use_srtp offer/selection,
+   the three uint16-list extensions (supported_groups, signature_algorithms[_cert]), the empty
+   payloads (server_name ack, RRC, EMS, early_data, post_handshake_auth) and Raw *)
+Theorem C18_extension_payloads_common :
+  (ext_ok w_connection_id /\ wtrunc w_connection_id) /\
+  (ext_ok w_alpn_offer /\ wtrunc w_alpn_offer) /\ (ext_ok w_alpn_selection /\ wtrunc w_alpn_selection) /\
+  (ext_ok w_srtp_offer /\ wtrunc w_srtp_offer) /\ (ext_ok w_srtp_selection /\ wtrunc w_srtp_selection) /\
+  (ext_ok w_u16_list /\ wtrunc w_u16_list) /\ ext_ok w_empty /\ ext_ok w_raw_payload.
+Proof.
+  exact (conj (conj connection_id_ok connection_id_trunc)
+        (conj (conj alpn_offer_ok alpn_offer_trunc) (conj (conj alpn_selection_ok alpn_selection_trunc)
+        (conj (conj srtp_offer_ok srtp_offer_trunc) (conj (conj srtp_selection_ok srtp_selection_trunc)
+        (conj (conj u16_list_ok u16_list_trunc) (conj empty_ok raw_payload_ok))))))).
+Qed.
+Print Assumptions C18_extension_payloads_common.
+
+(* payloads of extension/dtls12: renegotiation_info, supported_point_formats (lossy decoder) *)
+Theorem C18_extension_payloads_dtls12 :
+  (ext_ok w_renegotiation_info /\ wtrunc w_renegotiation_info) /\
+  (ext_ok w_point_formats /\ wtrunc w_point_formats).
+Proof.
+  exact (conj (conj renegotiation_info_ok renegotiation_info_trunc) (conj point_formats_ok point_formats_trunc)).
+Qed.
+Print Assumptions C18_extension_payloads_dtls12.
+
+(* payloads of extension/dtls13 *)
+Theorem C18_extension_payloads_dtls13 :
+  (ext_ok w_cookie /\ wtrunc w_cookie) /\ (ext_ok w_max_early_data /\ wtrunc w_max_early_data) /\
+  (ext_ok w_psk_modes /\ wtrunc w_psk_modes) /\
+  (ext_ok w_offered_versions /\ wtrunc w_offered_versions) /\
+  (ext_ok w_selected_version /\ wtrunc w_selected_version) /\
+  (ext_ok w_cert_authorities /\ wtrunc w_cert_authorities) /\
+  (ext_ok w_oid_filters /\ wtrunc w_oid_filters) /\
+  (ext_ok w_client_key_share /\ wtrunc w_client_key_share) /\ ext_ok w_server_key_share /\
+  (ext_ok w_retry_key_share /\ wtrunc w_retry_key_share) /\
+  (ext_ok w_offered_psks /\ wtrunc w_offered_psks) /\ (ext_ok w_selected_psk /\ wtrunc w_selected_psk).
+Proof.
+  exact (conj (conj cookie_ok_ cookie_trunc) (conj (conj max_early_data_ok max_early_data_trunc)
+        (conj (conj psk_modes_ok psk_modes_trunc) (conj (conj offered_versions_ok offered_versions_trunc)
+        (conj (conj selected_version_ok selected_version_trunc)
+        (conj (conj cert_authorities_ok cert_authorities_trunc) (conj (conj oid_filters_ok oid_filters_trunc)
+        (conj (conj client_key_share_ok client_key_share_trunc) (conj server_key_share_ok
+        (conj (conj retry_key_share_ok retry_key_share_trunc)
+        (conj (conj offered_psks_ok offered_psks_trunc) (conj selected_psk_ok selected_psk_trunc)))))))))))).
+Qed.
+Print Assumptions C18_extension_payloads_dtls13.
+
 (* ================================================================== non-vacuity *)
 
 Example C18_example_header :
@@ -342,3 +398,11 @@ Example C18_example_handshake :
   Some (mk_hshdr 16 4 1 0 4, MClientKeyExchange (None, Some [1; 2; 3])) /\
   hs_wf 4 (mk_hshdr 16 4 1 0 4, MClientKeyExchange (None, Some [1; 2; 3])) = true.
 Proof. vm_compute. split; reflexivity. Qed.
+
+Example C18_example_extension_list :
+  wdec w_ext_list [0; 9; 0; 23; 0; 0; 0; 54; 0; 1; 0] = Some [(23, []); (54, [0])].
+Proof. vm_compute. reflexivity. Qed.
+
+Example C18_example_key_share :
+  wdec w_client_key_share [0; 7; 0; 29; 0; 3; 1; 2; 3] = Some [(29, [1; 2; 3])].
+Proof. vm_compute. reflexivity. Qed.
